@@ -32,14 +32,14 @@ def rand_summary(rng, fam):
         # small magnitudes: the library's default update policy is `summary += update` on int64_t (signed overflow is the user's problem)
         return ["%x" % (rng.choice([0, 1, 2, -1, -2, rng.randrange(-2**40, 2**40)]) % 2**64)]
     if fam in ("tstr", "tcst"):
-        n = rng.choice([0, 0, 1, 2, 3, 5, 8, 13])
+        n = rng.choice([0, 0, 1, 2, 3, 5, 8, 13]) if fam == "tstr" else rng.choice([0, 1, 2, 3])
         return ["".join("%02x" % rng.randrange(256) for _ in range(n)) or "-"]
     if fam == "aod":
         return None  # filled by caller (needs num_values)
     return []
 
 
-def gen_history(rng, tier, fam, per_image_ops, other_seed_prob=0.3):
+def gen_history(rng, tier, fam, per_image_ops, other_seed_prob=0.3, max_lgk=None):
     """One history: 1-3 update sketches of family `fam` driven into different state classes, their compact forms
     (ordered / unordered / compact of compact), results of union / intersection / a_not_b, then for every compact object
     the ops produced by per_image_ops(obj_id, kind, other_id_or_None).
@@ -51,8 +51,10 @@ def gen_history(rng, tier, fam, per_image_ops, other_seed_prob=0.3):
     nv = rng.choice([0, 1, 1, 2, 3]) if fam == "aod" else 1
     lgks = []
     universe = rng.choice([40, 200, 1000, 10**6])
+    if fam == "tcst":
+        universe = 10**9    # the custom serde has a ONE-byte length: summaries (concatenated by `+=` on repeated keys) must stay below 256 bytes
     base = rng.randrange(0, 2**40)
-    max_lgk = 6 if tier == "quick" else 9
+    max_lgk = max_lgk or (6 if tier == "quick" else 9)
     for i in range(nsk):
         lgk = rng.choice([5, 5, 6] if tier == "quick" else [5, 6, 7, 8, 9])
         lgk = min(lgk, max_lgk)
@@ -221,6 +223,21 @@ def preamble_bytes(kind, img):
 def region(length, npre):
     """where a truncation happens: the 4-byte word of the preamble, or the entries area"""
     return "off%d" % (length // 4 * 4) if length < npre else "entries"
+
+
+def cap_unknown(bad, pid, limit=3):
+    """A regression usually shows under many keys at once and every distinct NEW key costs a delta-debugging run:
+    keep all hits of known findings, but at most `limit` new keys per history (first occurrences)."""
+    known = set(k.get("key") for k in core.load_known() if k.get("property") == pid and k.get("status") == "open")
+    out, new = [], []
+    for b in bad:
+        if b[0] in known:
+            out.append(b)
+        elif b[0] in new:
+            out.append(b)
+        elif len(new) < limit:
+            new.append(b[0]); out.append(b)
+    return out
 
 
 # ------------------------------------------------------------------ Parts
